@@ -158,6 +158,64 @@ Proof.
     pose proof (find_first_none _ _ E q Hin') as F. unfold by_run in F. apply N.eqb_neq in F. congruence.
 Qed.
 
+(* ---------- C09: older runs of a foreign ID are finished ---------- *)
+(* C09: in creation order, every run that is followed by a later run of the same foreign ID is finished *)
+Fixpoint older_finished (recs : list record) : Prop :=
+  match recs with
+  | [] => True
+  | r :: t => (existsb (fun x => N.eqb (r_fid x) (r_fid r)) t = true -> rs_finished (r_state r) = true) /\ older_finished t
+  end.
+
+Definition same_fid (r : record) (x : record) : bool := N.eqb (r_fid x) (r_fid r).
+
+Lemma existsb_ext' {A} (f g : A -> bool) (l : list A) : (forall x, f x = g x) -> existsb f l = existsb g l.
+Proof. intros H. induction l as [|a l IH]; cbn; [reflexivity|]. now rewrite H, IH. Qed.
+
+Lemma existsb_replace_fid (f : record -> bool) (l : list record) (r : record) :
+  (forall p, In p l -> r_run p = r_run r -> f p = f r) ->
+  existsb f (replace_first (by_run (r_run r)) r l) = existsb f l.
+Proof.
+  induction l as [|a l IH]; cbn; intros H; [reflexivity|].
+  unfold by_run at 1. destruct (N.eqb (r_run a) (r_run r)) eqn:E; cbn.
+  - apply N.eqb_eq in E. now rewrite (H a (or_introl eq_refl) E).
+  - f_equal. apply IH. intros; apply H; auto.
+Qed.
+
+Lemma older_finished_replace (recs : list record) (r : record) :
+  NoDup (map r_run recs) ->
+  (forall p, In p recs -> r_run p = r_run r -> r_fid r = r_fid p /\ (rs_finished (r_state p) = true -> rs_finished (r_state r) = true)) ->
+  older_finished recs -> older_finished (replace_first (by_run (r_run r)) r recs).
+Proof.
+  induction recs as [|a l IH]; cbn; intros Hnd H Ho; [exact I|]. inversion Hnd as [|y ys Hn Hnd']; subst. destruct Ho as [Ha Hl].
+  unfold by_run at 1. destruct (N.eqb (r_run a) (r_run r)) eqn:E; cbn.
+  - apply N.eqb_eq in E. destruct (H a (or_introl eq_refl) E) as [Hf Hfin]. split; [|exact Hl].
+    intros Hex. apply Hfin, Ha. erewrite existsb_ext'; [exact Hex|]. intros x. cbn. now rewrite Hf.
+  - split.
+    + intros Hex. apply Ha. rewrite <- Hex. symmetry. apply existsb_replace_fid.
+      intros p Hp Hr. destruct (H p (or_intror Hp) Hr) as [Hf _]. now rewrite Hf.
+    + apply IH; [exact Hnd'| |exact Hl]. intros p Hp. apply H. now right.
+Qed.
+
+Lemma last_opt_cons_nonempty {A} (a : A) (l : list A) : l <> [] -> last_opt (a :: l) = last_opt l.
+Proof. destruct l; [contradiction|reflexivity]. Qed.
+
+Lemma older_finished_snoc (recs : list record) (r : record) :
+  older_finished recs ->
+  (forall l, last_opt (filter (fun x => N.eqb (r_fid x) (r_fid r)) recs) = Some l -> rs_finished (r_state l) = true) ->
+  older_finished (recs ++ [r]).
+Proof.
+  induction recs as [|a l IH]; cbn; intros Ho Hlast; [split; [discriminate|exact I]|]. destruct Ho as [Ha Hl]. split.
+  - rewrite existsb_app. cbn. rewrite Bool.orb_false_r. intros Hex. apply Bool.orb_true_iff in Hex as [Hex|Hex]; [apply Ha, Hex|].
+    destruct (existsb (fun x => N.eqb (r_fid x) (r_fid a)) l) eqn:El; [apply Ha; reflexivity|].
+    apply N.eqb_eq in Hex. apply Hlast. rewrite <- Hex, N.eqb_refl.
+    assert (Hnil : filter (fun x => N.eqb (r_fid x) (r_fid a)) l = []).
+    { clear -El. induction l as [|b l IH]; cbn in *; [reflexivity|]. apply Bool.orb_false_iff in El as [E1 E2]. rewrite E1. apply IH, E2. }
+    erewrite filter_ext; [rewrite Hnil; reflexivity|]. intros x. now rewrite Hex.
+  - apply IH; [exact Hl|]. intros x Hx. apply Hlast.
+    destruct (N.eqb (r_fid a) (r_fid r)); [|exact Hx].
+    rewrite last_opt_cons_nonempty; [exact Hx|]. intros E. rewrite E in Hx. discriminate.
+Qed.
+
 (* ---------- the invariant ---------- *)
 Section Inv.
 Variable c : econfig.
@@ -191,14 +249,15 @@ Record WI (w : world) : Prop := mkWI {
   wi_noid : w_noid w = (N.of_nat (length (w_hist w)) + 1)%N;
   wi_out : forall o, In o (w_outbox w) -> entry_at (w_hist w) o;
   wi_logh : forall e, In e (w_log w) -> exists r, In r (w_hist w) /\ ev_of e (route 0%N r);
-  wi_pub : forall k r, nth_error (w_hist w) k = Some r -> In (route (N.of_nat k + 1)%N r) (w_outbox w) \/ published w r
+  wi_pub : forall k r, nth_error (w_hist w) k = Some r -> In (route (N.of_nat k + 1)%N r) (w_outbox w) \/ published w r;
+  wi_one : older_finished (w_recs w)
 }.
 
 Lemma WI_frame (w w' : world) :
   w_recs w' = w_recs w -> w_nrun w' = w_nrun w -> w_now w' = w_now w -> w_log w' = w_log w -> w_outbox w' = w_outbox w ->
   w_procs w' = w_procs w -> w_hist w' = w_hist w -> w_noid w' = w_noid w -> WI w -> WI w'.
 Proof.
-  intros E1 E2 E3 E4 E5 E6 E7 E8 [H1 H2 H3 H4 H5 H6 H7 H8 H9 H10].
+  intros E1 E2 E3 E4 E5 E6 E7 E8 [H1 H2 H3 H4 H5 H6 H7 H8 H9 H10 H11].
   constructor; unfold published in *; rewrite ?E1, ?E2, ?E3, ?E4, ?E5, ?E6, ?E7, ?E8; assumption.
 Qed.
 
@@ -229,7 +288,10 @@ Proof. intros [->| ->]; destruct b; cbn; intros H; try discriminate; auto. Qed.
 Definition store_pre (w : world) (r : record) : Prop :=
   store_ok g (lookup_run w (r_run r)) (stamp c w r) = true /\
   r_updated (stamp c w r) <= w_now w /\ r_state r <> RSUnknown /\
-  (lookup_run w (r_run r) = None -> (r_run r < w_nrun w)%N).
+  (lookup_run w (r_run r) = None ->
+     (r_run r < w_nrun w)%N /\
+     (* a new run: the latest run of its foreign ID, if any, is finished *)
+     (forall l, last_opt (filter (fun x => N.eqb (r_fid x) (r_fid r)) (w_recs w)) = Some l -> rs_finished (r_state l) = true)).
 
 Lemma stamp_run (w : world) (r : record) : r_run (stamp c w r) = r_run r.
 Proof. unfold stamp. destruct (ec_stamp c); reflexivity. Qed.
@@ -266,7 +328,7 @@ Proof.
   unfold do_store. fold r'. constructor; cbn.
   - apply upsert_nodup, Hnd.
   - intros x Hx. destruct (upsert_in _ _ _ Hnd Hx) as [->|[Hx' _]]; [|apply (wi_lt w HW), Hx'].
-    rewrite Hrun. destruct (lookup_run w (r_run r)) as [p|] eqn:E; [|now apply Hnew].
+    rewrite Hrun. destruct (lookup_run w (r_run r)) as [p|] eqn:E; [|now apply (Hnew eq_refl)].
     apply (WI_lookup w _ _ HW) in E as (Hin & Hr & _). rewrite <- Hr. apply (wi_lt w HW), Hin.
   - intros x Hx. destruct (upsert_in _ _ _ Hnd Hx) as [->|[Hx' _]]; [|apply (wi_rec w HW), Hx'].
     destruct (store_ok_rec_fields _ _ Hok) as [F1 F2]. repeat split; try assumption.
@@ -300,6 +362,18 @@ Proof.
     + rewrite nth_error_app1 in Hk by exact Hlt. destruct (wi_pub w HW k x Hk) as [A|A]; [left; apply in_or_app; now left|right; exact A].
     + rewrite nth_error_app2 in Hk by exact Hge. destruct (k - length (w_hist w))%nat as [|j] eqn:Ej; cbn in Hk; [|destruct j; discriminate].
       inversion Hk; subst x. left. apply in_or_app. right. left. rewrite (wi_noid w HW). f_equal. lia.
+  - (* C09 *)
+    rewrite upsert_eq. rewrite Hrun. pose proof (wi_one w HW) as Hone.
+    destruct (find_first (by_run (r_run r)) (w_recs w)) as [p|] eqn:E.
+    + rewrite <- Hrun. apply older_finished_replace; [exact Hnd| |exact Hone].
+      intros q Hq Hr. rewrite Hrun in Hr.
+      assert (q = p). { rewrite <- Hr in E. rewrite (find_run_nodup _ _ Hnd Hq) in E. now inversion E. } subst q.
+      rewrite lookup_run_eq, E in Hok. unfold store_ok in Hok. apply andb_prop in Hok as [_ Hok].
+      repeat match type of Hok with (_ && _ = true) => let H' := fresh "C" in apply andb_prop in Hok as [Hok H'] end.
+      unfold same_id in Hok. repeat match type of Hok with (_ && _ = true) => let H' := fresh "I" in apply andb_prop in Hok as [Hok H'] end.
+      split; [symmetry; now apply N.eqb_eq|]. intros Hf. rewrite Hf in C1. exact C1.
+    + apply older_finished_snoc; [exact Hone|]. rewrite lookup_run_eq in Hnew. destruct (Hnew E) as [_ Hl].
+      intros l Hl'. apply Hl. assert (Ef : r_fid r' = r_fid r) by (unfold r', stamp; destruct (ec_stamp c); reflexivity). rewrite Ef in Hl'. exact Hl'.
 Qed.
 
 End Inv.
